@@ -1117,7 +1117,7 @@ MISC_CASES = [
                                    ["set!", "acc", ["cons", ["lambda", [], "i"], "acc"]], ["set!", "i", ["+", "i", 1]]],
                                   lst([["car", "acc"]], [["car", ["cdr", "acc"]]], [["car", ["cdr", ["cdr", "acc"]]]])]),
     ("do-step-sees-old-values", [["do", [["i", 0, ["+", "i", 1]], ["j", 10, ["+", "i", "j"]]], [["=", "i", 4], lst("i", "j")]]]),
-    ("do-no-step", [["do", [["i", 0, ["+", "i", 1]], ["k", 5]], [["=", "i", 2], "k"]]]),
+    ("do-no-step", [["do", [["i", 0, ["+", "i", 1]], ["k", 5]], [["=", "i", 2], "k"], ["set!", "k", ["+", "k", 10]]]]),
     ("named-let-closures-per-iteration", [["let", "lp", [["i", 0], ["acc", NIL]],
                                            ["if", ["<", "i", 3], ["lp", ["+", "i", 1], ["cons", ["lambda", [], "i"], "acc"]],
                                             lst([["car", "acc"]], [["car", ["cdr", "acc"]]])]]]),
